@@ -150,6 +150,18 @@ func (x *Run) binop(fr *Frame, st *State, op token.Token, a, b Val, ty types.Typ
 		}
 	case SInt, SReal:
 		arith := func(o string) Val {
+			if a.S == SInt {
+				if la, ok := litInt(a.T); ok {
+					if lb, ok := litInt(b.T); ok {
+						switch o {
+						case "+":
+							return Val{T: intLit(int64(la + lb)), S: SInt, Ty: ty}
+						case "-":
+							return Val{T: intLit(int64(la - lb)), S: SInt, Ty: ty}
+						}
+					}
+				}
+			}
 			r := Val{T: fmt.Sprintf("(%s %s %s)", o, a.T, b.T), S: a.S, Ty: ty}
 			return r
 		}
@@ -223,6 +235,11 @@ func (x *Run) execIndexAddr(fr *Frame, st *State, ins *ssa.IndexAddr, outs *[]Ou
 		x.mayPanic(fr, st, fmt.Sprintf("(and (>= %s 0) (< %s %s))", idx.T, idx.T, x.sliceLen(base)), "index", ins, outs)
 		b := base
 		a := &Addr{Kind: AElem, Slice: &b, Idx: idx.T, Ty: t.Elem()}
+		if _, isParam := ins.X.(*ssa.Parameter); !isParam && base.Origin == "" {
+			sx := ins.X
+			env := fr.env
+			a.rebind = func(nv Val) { env[sx] = nv }
+		}
 		fr.env[ins] = Val{T: "0", S: SInt, Ty: ins.Type(), Addr: a}
 	case *types.Pointer:
 		arr := t.Elem().Underlying().(*types.Array)
@@ -490,6 +507,13 @@ func (x *Run) doTypeAssert(fr *Frame, st *State, ins *ssa.TypeAssert, outs *[]Ou
 		x.assumeType(st, res)
 	}
 	if !ins.CommaOk {
+		if x.spec.assumeAssert[fr.fn.String()] {
+			x.mu.Lock()
+			x.opaque["assumed-typeassert:"+x.fnShort(fr.fn)] = true
+			x.mu.Unlock()
+			st.assume(okCond)
+			return []fork{{st, res}}
+		}
 		x.mayPanic(fr, st, okCond, "typeassert", ins, outs)
 		return []fork{{st, res}}
 	}
